@@ -29,6 +29,10 @@ func runC11(c *Check) {
 	c04LookupCopy(c, P+".O3", r)
 	R := r.Replay
 	c11Handoff(c, P+".O1", r)
+	// the log is a plain map shared by all topics: every access is under its lock; the teardown of a cancelled
+	// subscription raises its closing signal before taking the locks a blocked Publish holds
+	c07PersistedGuard(c, P+".O2", r)
+	c07TeardownOrder(c, P+".O1", r)
 	// registration after the replays were started, on every path
 	for _, ad := range Callers([]*ssa.Function{R}, r.AddSub) {
 		for _, ret := range Returns(R) {
@@ -38,34 +42,7 @@ func runC11(c *Check) {
 
 	// O2: Publish
 	Pub := r.Publish
-	var crit []ssa.Instruction
-	AllInstrs(Pub, func(in ssa.Instruction) {
-		switch x := in.(type) {
-		case *ssa.MapUpdate:
-			if r.isPers(x.Map) {
-				crit = append(crit, in)
-			}
-		case *ssa.Call:
-			if CalleeFn(&x.Call) == r.Fan {
-				crit = append(crit, in)
-			}
-		}
-	})
-	c.Floor(P+".O2", "persisted-log updates and fan-out calls in Publish", len(crit), 2)
-	for i, in := range crit {
-		held := r.LA.Held(in)
-		_, s := held[r.idSubs]
-		_, t := held[r.idTopic]
-		c.Report(s && t, P+".O2", "ATOMIC-PERSIST-SEND", Pub, in.Pos(), fmt.Sprintf("critical op#%d", i), "the log append and the fan-outs happen with the subscribers lock and the topic mutex held", "held: "+held.String())
-	}
-	for _, cl := range CallsIn(Pub) {
-		if op, ok := r.LA.opOf(cl); ok && (op.mode == 'w' || op.mode == 'r') && (op.id == r.idSubs || op.id == r.idTopic) {
-			if _, isDefer := cl.(*ssa.Defer); !isDefer {
-				c.Report(false, P+".O2", "ONE-CRITICAL-SECTION", Pub, cl.Pos(), "unlock", "Publish releases "+op.id+" in the middle of persisting and sending a batch")
-			}
-		}
-	}
-	c.Report(len(r.LA.Result(Pub).DeferredUnlock[r.idSubs]) > 0 && len(r.LA.Result(Pub).DeferredUnlock[r.idTopic]) > 0, P+".O2", "ONE-CRITICAL-SECTION", Pub, Pub.Pos(), "Publish", "both locks are released only by deferred unlocks at the end of Publish")
+	crit := c11PublishSection(c, P+".O2", r)
 	// the persisted append happens on the Persistent edge and before the fan-outs
 	persTrue, _ := BoolEdges(Pub, exportedFieldLoad("Persistent"))
 	c.Floor(P+".O2", "test of config.Persistent in Publish", len(persTrue), 1)
@@ -270,4 +247,41 @@ func c11Handoff(c *Check, id string, r *GCRoles) {
 		c.Report(held[r.idSubs] == 'W' && t, id, "LOCKED-AT-HANDOFF", r.Subscribe, goReplay.Pos(), "hand-off", "both locks are held when the replay goroutine is started", "held: "+held.String())
 		// the replay literal is started for the subscription being created
 	}
+}
+
+// c11PublishSection: the log append and every fan-out of a batch happen in one
+// critical section of the subscribers lock and the topic mutex (a subscription
+// that joins meanwhile would otherwise see a message both replayed and live).
+// Shared with C04.O6.
+func c11PublishSection(c *Check, id string, r *GCRoles) []ssa.Instruction {
+	Pub := r.Publish
+	var crit []ssa.Instruction
+	AllInstrs(Pub, func(in ssa.Instruction) {
+		switch x := in.(type) {
+		case *ssa.MapUpdate:
+			if r.isPers(x.Map) {
+				crit = append(crit, in)
+			}
+		case *ssa.Call:
+			if CalleeFn(&x.Call) == r.Fan {
+				crit = append(crit, in)
+			}
+		}
+	})
+	c.Floor(id, "persisted-log updates and fan-out calls in Publish", len(crit), 2)
+	for i, in := range crit {
+		held := r.LA.Held(in)
+		_, s := held[r.idSubs]
+		_, t := held[r.idTopic]
+		c.Report(s && t, id, "ATOMIC-PERSIST-SEND", Pub, in.Pos(), fmt.Sprintf("critical op#%d", i), "the log append and the fan-outs happen with the subscribers lock and the topic mutex held", "held: "+held.String())
+	}
+	for _, cl := range CallsIn(Pub) {
+		if op, ok := r.LA.opOf(cl); ok && (op.mode == 'w' || op.mode == 'r') && (op.id == r.idSubs || op.id == r.idTopic) {
+			if _, isDefer := cl.(*ssa.Defer); !isDefer {
+				c.Report(false, id, "ONE-CRITICAL-SECTION", Pub, cl.Pos(), "unlock", "Publish releases "+op.id+" in the middle of persisting and sending a batch")
+			}
+		}
+	}
+	c.Report(len(r.LA.Result(Pub).DeferredUnlock[r.idSubs]) > 0 && len(r.LA.Result(Pub).DeferredUnlock[r.idTopic]) > 0, id, "ONE-CRITICAL-SECTION", Pub, Pub.Pos(), "Publish", "both locks are released only by deferred unlocks at the end of Publish")
+	return crit
 }
